@@ -25,6 +25,9 @@ type PropConfig struct {
 	Standins   []StandIn `json:"bounded_standins"`    // bounded checks that stand in for clauses out of reach (never counted as proved)
 	Level      string   `json:"level"`
 	Requires   []string `json:"requires_properties"`  // premises re-run by this check (e.g. C01 depends on C06, C13)
+	Family     string   `json:"family,omitempty"`     // "router": verify code generated from the current templates for an enumerated family of specs
+	FamilyQuick    int  `json:"family_sampled_quick,omitempty"`    // number of sampled programs besides the corner programs (quick tier)
+	FamilyThorough int  `json:"family_sampled_thorough,omitempty"` // ... (thorough tier)
 }
 
 // StandIn is a bounded check executed on the real code.
@@ -165,7 +168,38 @@ func RunCheck(prop string, opt CheckOptions) *CheckResult {
 	if pc.Level == "" {
 		pc.Level = "proof"
 	}
-	e, err := Load(Config{RepoDir: opt.RepoDir, Pkgs: pc.Packages, MirrorDir: filepath.Join(opt.VerifDir, "contracts"), StdlibDir: filepath.Join(opt.VerifDir, "stdlib")})
+	cfg := Config{RepoDir: opt.RepoDir, Pkgs: pc.Packages, MirrorDir: filepath.Join(opt.VerifDir, "contracts"), StdlibDir: filepath.Join(opt.VerifDir, "stdlib")}
+	var family []RouteSet
+	familyDir := ""
+	var e *Engine
+	if pc.Family == "router" {
+		// kind B: the generator of the current tree is built and run on every member of the family;
+		// the generated packages live in a scratch module that is removed when the check ends
+		scratch, terr := os.MkdirTemp("", "govc-family-")
+		if terr != nil {
+			return engineError("%v", terr)
+		}
+		defer os.RemoveAll(scratch)
+		n := pc.FamilyQuick
+		if opt.Tier == "thorough" {
+			n = pc.FamilyThorough
+		}
+		family = RouterFamily(1, n)
+		mod, gerr := GenerateRouterFamily(opt.RepoDir, family, scratch)
+		if gerr != nil {
+			err = gerr
+		} else {
+			familyDir = mod
+			cfg.ModDir = mod
+			for _, rs := range family {
+				cfg.Extra = append(cfg.Extra, ExtraPkg{Dir: filepath.Join(mod, rs.ID), Pattern: "./" + rs.ID})
+			}
+			cfg.Extra = append(cfg.Extra, ExtraPkg{Dir: filepath.Join(opt.RepoDir, "uri"), Pattern: "github.com/ogen-go/ogen/uri", Mirror: filepath.Join(opt.VerifDir, "contracts", "uri")})
+		}
+	}
+	if err == nil {
+		e, err = Load(cfg)
+	}
 	if opt.OutDir == "" {
 		opt.OutDir = opt.VerifDir
 	}
@@ -202,6 +236,9 @@ func RunCheck(prop string, opt CheckOptions) *CheckResult {
 		found := map[string]bool{}
 		var fcs []*FuncContract
 		for _, cs := range e.Sets {
+			if familyDir != "" && !strings.HasPrefix(cs.PkgDir, familyDir) {
+				continue // repository packages loaded beside the family only supply assumed contracts
+			}
 			for _, fc := range cs.AllFuncs() {
 				if fc.Extern {
 					continue
@@ -226,7 +263,7 @@ func RunCheck(prop string, opt CheckOptions) *CheckResult {
 		vacuity := map[*Obligation]bool{}
 		for _, fc := range fcs {
 			r := e.VerifyFunc(fc)
-			fu := map[string]any{"name": r.Key, "file": strings.TrimPrefix(fc.File, opt.RepoDir+"/"), "ssa_instructions": r.NInstr, "obligations": len(r.Obligations)}
+			fu := map[string]any{"name": r.Key, "file": strings.TrimPrefix(strings.TrimPrefix(fc.File, opt.RepoDir+"/"), familyDir+"/"), "ssa_instructions": r.NInstr, "obligations": len(r.Obligations)}
 			if fc.Trusted != "" {
 				fu["trusted"] = fc.Trusted
 			}
@@ -282,7 +319,7 @@ func RunCheck(prop string, opt CheckOptions) *CheckResult {
 				continue
 			}
 			nObl++
-			rep := oblReport{Name: o.Name, Class: o.Class, Status: v.Status, By: v.By, TimeS: v.Time, Pos: fmt.Sprintf("%s:%d", strings.TrimPrefix(o.Pos.Filename, opt.RepoDir+"/"), o.Pos.Line), Answers: map[string]string{}}
+			rep := oblReport{Name: o.Name, Class: o.Class, Status: v.Status, By: v.By, TimeS: v.Time, Pos: fmt.Sprintf("%s:%d", strings.TrimPrefix(strings.TrimPrefix(o.Pos.Filename, opt.RepoDir+"/"), familyDir+"/"), o.Pos.Line), Answers: map[string]string{}}
 			for _, r := range v.Results {
 				rep.Answers[r.Solver] = r.Answer
 				solverTime += r.Time
@@ -351,8 +388,15 @@ func RunCheck(prop string, opt CheckOptions) *CheckResult {
 		return fn
 	}
 	nKF := 0
+	nFamilyReplays := 0
 	for _, v := range failed {
-		if k := kfByObl[v.Obl.Name]; k != nil {
+		k := kfByObl[v.Obl.Name]
+		if k == nil {
+			if i := strings.LastIndex(v.Obl.Name, "#"); i > 0 {
+				k = kfByObl[v.Obl.Name[:i]] // same clause checked at another return point
+			}
+		}
+		if k != nil {
 			nKF++
 			if !printedKF[k.ID] {
 				printedKF[k.ID] = true
@@ -372,14 +416,23 @@ func RunCheck(prop string, opt CheckOptions) *CheckResult {
 			"status": "no-input", "found_by": "none", "solver": answers, "solver_output": outs, "goal_smt": truncate(v.Obl.Goal.String(), 4000),
 			"replay_cmd": fmt.Sprintf("./check --replay %s", filepath.Join(replayDir, sanitizeFile(v.Obl.Name)+".json"))}
 		suffix := " no-failing-input-found"
-		if e != nil {
-			if ce := e.FindCounterexample(v, opt); ce != nil {
-				for k, x := range ce {
-					body[k] = x
-				}
-				if ce["status"] == "confirmed" {
-					suffix = ""
-				}
+		var ce map[string]any
+		if e != nil && familyDir != "" {
+			if nFamilyReplays < 8 {
+				nFamilyReplays++
+				ce = e.familyReplay(familyDir, v.Obl.Name)
+			} else {
+				body["replay_note"] = "replay skipped: more than 8 failed obligations in this run (the first 8 were replayed)"
+			}
+		} else if e != nil {
+			ce = e.FindCounterexample(v, opt)
+		}
+		if ce != nil {
+			for k, x := range ce {
+				body[k] = x
+			}
+			if ce["status"] == "confirmed" {
+				suffix = ""
 			}
 		}
 		fn := writeReplay(v.Obl.Name, body)
@@ -448,6 +501,22 @@ func RunCheck(prop string, opt CheckOptions) *CheckResult {
 		"failed_obligations":       failedNames(failed),
 		"explanation":              "every obligation generated from the current working tree was sent to the solvers; discharged = answered unsat by at least one and sat by none",
 	}
+	if pc.Family != "" {
+		var fam []map[string]any
+		for _, rs := range family {
+			var ts []string
+			for _, t := range rs.Templates {
+				var ms []string
+				for _, o := range t.Ops {
+					ms = append(ms, o.Method)
+				}
+				ts = append(ts, strings.Join(ms, ",")+" "+t.Path)
+			}
+			fam = append(fam, map[string]any{"id": rs.ID, "routes": ts})
+		}
+		cov["program_family"] = map[string]any{"kind": pc.Family, "programs": fam,
+			"note": "bounded over programs: the generator of the current tree was run on each route set; each generated ServeHTTP was verified for all requests against a contract derived from the route set alone"}
+	}
 	if e != nil && len(e.Warnings) > 0 {
 		w := e.Warnings
 		if len(w) > 20 {
@@ -466,6 +535,10 @@ func RunCheck(prop string, opt CheckOptions) *CheckResult {
 	b, _ := json.MarshalIndent(ev, "", " ")
 	if err := os.WriteFile(filepath.Join(opt.OutDir, "evidence", prop+".json"), b, 0o644); err != nil {
 		return engineError("cannot write evidence: %v", err)
+	}
+	if rp := os.Getenv("GOVC_REPORT"); rp != "" {
+		rb, _ := json.MarshalIndent(reports, "", " ")
+		os.WriteFile(rp, rb, 0o644)
 	}
 	if opt.Verbose {
 		for _, r := range reports {
